@@ -40,6 +40,8 @@ import (
 //	merge e f                     e.Merge(f)                         (Node.Merge: kinds, then Properties.Merge; nodes only)
 //	rmerge e f                    e.Merge(f)                         (Relationship.Merge; relationships only)
 //	addk e A,_,B | delk e A,B     Node.AddKinds / Node.DeleteKinds   (_ = nil Kind, AddKinds only; nodes only)
+//	json e                        e = unmarshal(marshal(e)) with encoding/json (a node inside a graph.NodeSet, a
+//	                              relationship's Properties on their own)
 //	strip e a,b | strip e -       Node.StripAllPropertiesExcept(keys...)                     (nodes only)
 //	drv e                         what the pg batch update builders send for entity e (nodes only):
 //	                              NodeUpdateParameters.Append and LargeNodeUpdateRows.Append must agree; answer
@@ -546,6 +548,8 @@ func (r *c12Runner) Step(t []string, raw string) string {
 		r.countPropsMerge(p, r.props(f))
 		p.Merge(r.props(f))
 		return r.withDump("ok")
+	case t[0] == "json" && len(t) == 2:
+		return r.withDump(r.jsonRoundTrip(e))
 	case t[0] == "rmerge" && len(t) == 3:
 		f, ok := r.ent(t[2])
 		if !ok || !r.isRel {
@@ -657,6 +661,44 @@ func (r *c12Runner) Step(t []string, raw string) string {
 		return r.withDump("ok")
 	}
 	return "bad-op"
+}
+
+// jsonRoundTrip replaces entity e by what real encoding/json makes of it: a node travels inside a graph.NodeSet
+// (Node.MarshalJSON / NodeSet.UnmarshalJSON), a relationship's Properties by their struct tags (graph.Relationship has
+// no decoder of its own: its Kind is an interface).
+func (r *c12Runner) jsonRoundTrip(e int) string {
+	r.stats.Inc("branch.json")
+	if r.isRel {
+		b, err := json.Marshal(r.r[e].Properties)
+		if err != nil {
+			return "err marshal"
+		}
+		p := new(graph.Properties)
+		if err := json.Unmarshal(b, p); err != nil {
+			return "err unmarshal"
+		}
+		r.r[e].Properties = p
+		return "ok"
+	}
+	n := r.n[e]
+	if n.Properties.Modified != nil || n.Properties.Deleted != nil || len(n.AddedKinds) > 0 || len(n.DeletedKinds) > 0 {
+		r.stats.Inc("branch.json.tracked")
+	}
+	b, err := json.Marshal(graph.NodeSet{n.ID: n})
+	if err != nil {
+		return "err marshal"
+	}
+	var ns graph.NodeSet
+	if err := json.Unmarshal(b, &ns); err != nil {
+		return "err unmarshal"
+	}
+	decoded := ns.Get(n.ID)
+	if decoded == nil || decoded.Properties == nil {
+		return "err lost"
+	}
+	r.n[e] = decoded
+	r.callerKinds[e], r.callerCopy[e] = nil, nil
+	return "ok"
 }
 
 // ---------------------------------------------------------------------------------------------- consumers
@@ -855,7 +897,7 @@ func (c12Suite) Gen(rng *Rng, tier string, w *bufio.Writer, stats *Stats) {
 	full := []string{
 		"set 0 a 2", "set 1 a 3", "set 0 a 0", "set 1 b 4", "setall 0 a:1,c:5", "setall 1 nil", "del 0 a", "del 1 a", "del 0 c", "del 1 b",
 		"gd 0 a 5", "gf 0 c 5 d,a", "clone 0 1", "clone 1 0", "pmerge 0 1", "pmerge 1 0", "pmerge 0 0", "merge 0 1", "merge 1 0",
-		"addk 0 A", "addk 0 C", "addk 1 C,_", "delk 0 A", "delk 1 A", "delk 0 C", "delk 1 B,C", "drv 0", "strip 0 a,c",
+		"addk 0 A", "addk 0 C", "addk 1 C,_", "delk 0 A", "delk 1 A", "delk 0 C", "delk 1 B,C", "drv 0", "strip 0 a,c", "json 0",
 	}
 	propsOnly := []string{
 		"set 0 a 2", "set 1 a 3", "set 0 b 0", "setall 1 a:1,c:5", "del 0 a", "del 1 a", "del 1 c",
@@ -863,7 +905,7 @@ func (c12Suite) Gen(rng *Rng, tier string, w *bufio.Writer, stats *Stats) {
 	}
 	relOnly := []string{
 		"set 0 a 2", "set 1 a 3", "set 0 b 0", "setall 1 a:1,c:5", "del 0 a", "del 1 a", "del 1 c",
-		"clone 0 1", "rmerge 0 1", "rmerge 1 0", "pmerge 0 1",
+		"clone 0 1", "rmerge 0 1", "rmerge 1 0", "pmerge 0 1", "json 1",
 	}
 	kindsOnly := []string{
 		"addk 0 A", "addk 1 A", "addk 0 C", "addk 1 C", "delk 0 A", "delk 1 A", "delk 0 C", "delk 1 C,B", "merge 0 1", "merge 1 0",
@@ -882,7 +924,7 @@ func (c12Suite) Gen(rng *Rng, tier string, w *bufio.Writer, stats *Stats) {
 			ctorLoads = append(ctorLoads, fmt.Sprintf("%s B %s %s", mc[0], mc[1], ent))
 		}
 	}
-	ctorOps := []string{"set 0 a 2", "del 1 a", "setall 0 -", "setall 1 nil", "gd 0 b 5", "gf 1 c 3 b,a", "keys 0", "len 1", "clone 0 1", "pmerge 1 0"}
+	ctorOps := []string{"set 0 a 2", "del 1 a", "setall 0 -", "setall 1 nil", "gd 0 b 5", "gf 1 c 3 b,a", "keys 0", "len 1", "clone 0 1", "pmerge 1 0", "json 0", "json 1"}
 	exhaustive("ex-ctor-2", ctorLoads, ctorOps, 2)
 	if tier == "thorough" {
 		exhaustive("ex-mid-4", []string{"a:1,b:2 A,B", "nil -"}, mid, 4)
@@ -964,7 +1006,11 @@ func (c12Suite) Gen(rng *Rng, tier string, w *bufio.Writer, stats *Stats) {
 					ops = append(ops, fmt.Sprintf("len %d", e))
 				}
 			case x < 12:
-				ops = append(ops, fmt.Sprintf("clone %d %d", e, f))
+				if rng.Bool() {
+					ops = append(ops, fmt.Sprintf("json %d", e))
+				} else {
+					ops = append(ops, fmt.Sprintf("clone %d %d", e, f))
+				}
 			case x < 16:
 				ops = append(ops, fmt.Sprintf("addk %d %s", e, c12PickKinds(rng, true, true)))
 			case x < 20:
